@@ -663,6 +663,22 @@ def _agg(g, scale):
                     g.emit(("%s %s %s ra rb %s rd re" % (fn, y, "" if w is None else str(w), flagged)).replace("  ", " "))
                     g.emit("aggindep %s %s res ra rb rd re %s" % (y, flagged, c0))
         g.count("agg:flagged-interior-" + shape)
+    # an operand with a container in ALL 65536 chunks (and one with 65535): every many-way aggregate, two and three members
+    g.emit("# group agg fixed-all-chunks")
+    g.emit("new ua")
+    g.emit("addstride ua 9 65536 65536")
+    g.emit("new ub")
+    g.emit("addstride ub 65545 65536 65535")
+    g.emit("of uf 9 65545 %d 77" % ((65535 << 16) + 9))
+    g.emit("of ug 9 %d" % ((40000 << 16) + 9))
+    for fn in PAR + SEQ:
+        for names in (["ua", "uf"], ["uf", "ua", "ug"], ["ub", "uf"], ["ua", "ub"]):
+            y = g.fresh("uy")
+            g.emit(("%s %s %s %s" % (fn, y, "2" if fn in PAR else "", " ".join(names))).replace("  ", " "))
+            g.emit("card %s" % y)
+    g.emit("clone ux ua")
+    g.emit("andany ux uf ug")
+    g.count("agg:all-chunks")
     # lists whose other members are all empty (fresh, or filled and emptied): the result is a bitmap of its own
     g.emit("# group agg fixed-empties-indep")
     g.emit("new fe2")
@@ -763,6 +779,14 @@ def sched_group(g, shape, scale):
         pool_ = [k for k in pool_ if k >= lo]
         for i in range(r.randint(2, 4)):
             mk(sorted(set(r.sample(pool_, r.randint(3, len(pool_))) + [65535])), cow=r.randrange(2))
+    elif shape == "allchunks":
+        # an operand with a container in every one of the 65536 chunks, with small partners
+        a_, b_, c_ = g.fresh(tag), g.fresh(tag), g.fresh(tag)
+        g.emit("new %s" % a_)
+        g.emit("addstride %s 9 65536 65536" % a_)
+        g.emit("of %s 9 65545 %d 77" % (b_, (65535 << 16) + 9))
+        g.emit("of %s 9 %d" % (c_, (40000 << 16) + 9))
+        names.extend([a_, b_, c_])
     elif shape.startswith("flaggedinterior"):
         # five operands over a wide key range; key 11 first appears in the THIRD operand (flagged: clone under copy-on-write, or a
         # zero-copy view) between keys the earlier operands have, as a bitmap / array / run chunk; later operands have key 11 too
@@ -795,13 +819,15 @@ def sched_group(g, shape, scale):
     combos = [(p, w) for p in (1, 2, 4, 16) for w in (0, 1, 2, 3, 8, 64)]
     if shape == "widetop":
         combos = [(p, w) for p in (1, 4) for w in (1, 2, 3, 4, 5, 6, 7, 8, 12, 16, 33)]
+    if shape == "allchunks":
+        combos = [(p, w) for p in (1, 4) for w in (0, 1, 3)]
     if shape.startswith("flaggedinterior"):
         combos = [(p, w) for p in (1, 4) for w in (0, 1, 2, 3, 8, 64)]
     for fn in PAR:
         # half of the GOMAXPROCS x workers grid per (group, function) at scale 1, the full grid from scale 2
         sel = combos if scale >= 2 else r.sample(combos, max(4, int(len(combos) * scale / 2)))
         for p, w in sel:
-            reps = r.randint(20, 50)
+            reps = r.randint(20, 50) if shape != "allchunks" else 2
             noise = " noise=%d" % r.choice([1, 3]) if r.random() < 0.3 else ""
             g.emit(("sched %s gomaxprocs=%d workers=%d reps=%d%s %s" % (fn, p, w, reps, noise, L)).rstrip())
             g.count("sched:gomaxprocs=%d" % p)
@@ -836,7 +862,7 @@ def sched_group(g, shape, scale):
 @suite("sched")
 def _sched(g, scale):
     shapes = ["emptylist", "allempty", "single", "disjoint", "common", "common", "dups", "mixed", "commonwide", "widetop",
-              "flaggedinterior:B", "flaggedinterior:B", "flaggedinterior"]
+              "flaggedinterior:B", "flaggedinterior:B", "flaggedinterior", "allchunks"]
     for sh in shapes:
         sched_group(g, sh, scale)
     for _ in range(int(2 * scale)):
